@@ -90,6 +90,8 @@ def run_hist(hist, check_from=0):
                     inst = {'name': letters.word(len(reg.instances), caps=True), 'role': role, 'open': True, 'pos': 0,
                             'ref': ot.RefConn(), 'thread': t, 'greg': kind != 'next',
                             'script': BIND_SCRIPTS[len(reg.instances) % 2] if kind in ('greg_sent', 'greg_recv') else SCRIPT}
+                    if len(reg.instances) % 2:
+                        inst['ref'].registry_id = 4       # a registry need not have id 2 (a toolkit's second get_registry)
                     reg.open[c] = len(reg.instances)
                     reg.instances.append(inst)
                     want_out.append('New %s connection %s' % (role_word(role), inst['name']))
@@ -243,6 +245,8 @@ def replay_scripts():
                 if c not in reg_open:
                     insts.append({'role': {'greg_sent': False, 'greg_recv': True, 'next': None, 'orphan': None}[kind], 'pos': 0, 'ref': ot.RefConn(),
                                   'script': BIND_SCRIPTS[len(insts) % 2] if kind in ('greg_sent', 'greg_recv') else SCRIPT})
+                    if (len(insts) - 1) % 2:
+                        insts[-1]['ref'].registry_id = 4
                     reg_open[c] = len(insts) - 1
                 inst = insts[reg_open[c]]
                 server = bool(inst['role'])
